@@ -68,23 +68,28 @@ func c01StartGuard(r *core.Run, limit time.Duration) {
 	})
 }
 
-func c01Case(s *core.Sub, cv *core.Conv, word []byte) (out []byte) {
+// c01Busy registers that the worker identified by key is inside a library call on word; the returned function ends it.
+func c01Busy(s *core.Sub, key any, cfg string, word []byte) (done func()) {
 	var sl *c01Slot
-	if v, ok := c01Slots.Load(cv); ok {
+	if v, ok := c01Slots.Load(key); ok {
 		sl = v.(*c01Slot)
 	} else {
-		sl = &c01Slot{cfg: cv.Cfg.String()}
-		c01Slots.Store(cv, sl)
+		sl = &c01Slot{cfg: cfg}
+		c01Slots.Store(key, sl)
 	}
 	sl.mu.Lock()
 	sl.busy, sl.since, sl.sub = true, time.Now(), s
 	sl.input = append(sl.input[:0], word...)
 	sl.mu.Unlock()
-	defer func() {
+	return func() {
 		sl.mu.Lock()
 		sl.busy = false
 		sl.mu.Unlock()
-	}()
+	}
+}
+
+func c01Case(s *core.Sub, cv *core.Conv, word []byte) (out []byte) {
+	defer c01Busy(s, cv, cv.Cfg.String(), word)()
 	out, err, pan := cv.Convert(word)
 	cfg := cv.Cfg.String()
 	if pan != nil {
@@ -234,10 +239,12 @@ func runC01(r *core.Run) {
 
 	corpusSub(r, "structured-corpus/all+attrall+xhtml", core.MustCfg("all+attrall+xhtml"), nil, func(s *core.Sub, cv *core.Conv, w []byte) { c01Case(s, cv, w) })
 	// runs of documents sharing one parser.Context (parser.WithContext): no panic, no error
+	sharedCtxGuard = c01Busy
 	for _, cn := range []string{"all+autoid+attr+unsafe+xhtml", "core"} {
 		sharedContextSub(r, "shared-context/"+cn, "no call panics or returns an error", core.MustCfg(cn), c12StructuredDocs(r.Quick()),
 			func(s *core.Sub, cfg core.Cfg, d, out []byte, tree ast.Node, hist []string) {})
 	}
+	sharedCtxGuard = nil
 	// (d) edit neighbourhood of the spec examples under the suite's fuzz configuration and a safe CJK one
 	for _, cn := range []string{"all+autoid+attr+unsafe+xhtml", "all+cjk"} {
 		nbhdSub(r, "nbhd-spec/"+cn, core.MustCfg(cn), func(s *core.Sub, cv *core.Conv, w []byte) { c01Case(s, cv, w) })
